@@ -1,4 +1,5 @@
 """Unit tpe_eval: the type-aware partial evaluator tpe::Evaluator::interpret (C14)."""
+import re
 import os, copy, importlib.util
 from vx.assemble import Fn, Type, Raw, Loop, ClosureRw, FnRw, cmp_rw
 
@@ -25,6 +26,15 @@ def _rebased(items):
         out.append(it)
     return out
 NODEC = ['verifier::exec_allows_no_decreases_clause']
+
+
+def split_record_collect(text):
+    rx = re.compile(r'let record: BTreeMap<_, _> = (m\s*\.iter\(\)\s*\.map\(.*?\}\))\s*\.collect\(\);', re.S)
+    def rep(m):
+        return ('let __vx_it = ' + m.group(1) + ';\n                let ghost __vx_items = __vx_it.items();\n'
+                '                let record: BTreeMap<_, _> = __vx_it.collect();')
+    return rx.subn(rep, text, count=1)
+
 RW = [
     (r'crate::evaluator::', 'evaluator::', None),
     (r'EntityUID::try_from\(self\.request\.principal\(\)\.clone\(\)\)', 'self.request.vx_principal_uid()', 1),
@@ -53,6 +63,7 @@ RW = [
     ClosureRw(r'\(_, r\)', '_vxp: (&SmolStr, &Residual)', 'bool', ensures='b == (*_vxp.1 is Concrete)', rname='b', destructure='(_, r)', count=1, follow=r'r\.is_concrete'),
     ClosureRw(r'\(_, r\)', '_vxp: (&SmolStr, &Residual)', 'bool', ensures='b == (*_vxp.1 is Error)', rname='b', destructure='(_, r)', count=1, follow=r'r\.is_error'),
     ClosureRw(r'\(a, r\)', '_vxp: (SmolStr, Residual)', '(SmolStr, Value)', requires='_vxp.1 is Concrete', ensures='x.0 == _vxp.0 && x.1 == _vxp.1->Concrete_value', rname='x', destructure='(a, r)', count=1),
+    FnRw('statement split of `let record: BTreeMap<_, _> = m.iter().map(..).collect();` (the mapped iterator is bound to a local first; order preserved)', split_record_collect, 1),
     # --- `in` against a set of entities
     ClosureRw(r'ancestors', 'ancestors: &HashSet<EntityUID>', 'bool', ensures='b == !uids@.disjoint(ancestors@)', rname='b', count=1),
     ClosureRw(r'uid2', 'uid2: &EntityUID', 'bool', ensures='c == ancestors@.contains(*uid2)', rname='c', count=1),
@@ -104,6 +115,41 @@ ITEMS = _rebased(_m.ITEMS) + [
                     assert forall|v: Arc<Vec<Residual>>| v@ == args@ implies forall|c: Cx| #[trigger] ksem(c, ResidualKind::ExtensionFunctionApp { fn_name: *fn_name, args: v }) == (if list_any_err(c, args@) { R::E } else { R::U }) by { lemma_ksem_ext(*fn_name, v); }
                 }
                 let ghost g_outs = args@;'''),
+              (r'let record: BTreeMap<_, _> = __vx_it\.collect\(\);', '''proof {
+                    let mi = r->Partial_kind->Record_0;
+                    assert forall|i: int| 0 <= i < __vx_items.len() implies (#[trigger] __vx_items[i]).0 == mi.key_order()[i] && sound(self, mi@[mi.key_order()[i]], __vx_items[i].1) by {}
+                    lemma_record_collect(self, mi, __vx_items, record);
+                    lemma_map_sound(self, mi@, record@);
+                    lemma_ksem_record(mi);
+                    assert forall|c: Cx| #[trigger] rsem(c, *r) == ksem(c, r->Partial_kind) by {}
+                    assert forall|c: Cx| #[trigger] types_ok(c, *r) == tk(c, r->Partial_kind) by {}
+                    lemma_ksem_record(Arc::new(record));
+                    assert(Arc::new(record)@ == record@);
+                    lemma_can_err_record(Arc::new(record));
+                    assert forall|c: Cx| cons(self, c) && types_ok(c, *r) && mp_all_val(c, mi@) && mp_all_val(c, record@) implies #[trigger] m_vals(c, Arc::new(record)) == m_vals(c, mi) by {
+                        assert(tk(c, r->Partial_kind));
+                        assert forall|i: int| 0 <= i < mi.key_order().len() implies m_vals(c, Arc::new(record))[i] == m_vals(c, mi)[i] by {
+                            let k = mi.key_order()[i]; assert(mi@.contains_key(k)); assert(rsem(c, record@[k]) == rsem(c, mi@[k]));
+                        }
+                        assert(m_vals(c, Arc::new(record)) =~= m_vals(c, mi));
+                    }
+                    assert forall|c: Cx, k: SmolStr| record@.contains_key(k) && record@[k] is Error implies mp_any_err(c, record@) by { assert(rsem(c, record@[k]) is E); }
+                }
+                let ghost g_rec = record;'''),
+              (r'let m = record\s*\.into_iter\(\)\s*\.map\(.*?\}\s*\}\);', '''proof {
+                        let mi = r->Partial_kind->Record_0;
+                        assert forall|c: Cx| mp_all_val(c, g_rec@) by { assert forall|k: SmolStr| g_rec@.contains_key(k) implies rsem(c, #[trigger] g_rec@[k]) is V by { assert(g_rec@[k] is Concrete); } }
+                        assert forall|c: Cx| cons(self, c) && types_ok(c, *r) && mp_all_val(c, mi@) implies #[trigger] m_vals(c, mi) == pair_kinds(m.items()) by {
+                            assert(tk(c, r->Partial_kind));
+                            assert forall|i: int| 0 <= i < mi.key_order().len() implies m_vals(c, mi)[i] == #[trigger] pair_kinds(m.items())[i] by {
+                                let k = mi.key_order()[i];
+                                assert(g_rec.pairs()[i] == (k, g_rec@[k]));
+                                assert(g_rec@[k] is Concrete);
+                                assert(rsem(c, g_rec@[k]) == rsem(c, mi@[k]));
+                            }
+                            assert(m_vals(c, mi) =~= pair_kinds(m.items()));
+                        }
+                    }'''),
               (r'let vals = vx_vec_into_iter\(es\)\.map\(.*?\}\s*\}\);', '''proof {
                         assert forall|c: Cx| list_all_val(c, g_outs) && #[trigger] list_vals(c, g_outs) == kinds_of(vals.items()) by {
                             assert forall|i: int| 0 <= i < g_outs.len() implies rsem(c, #[trigger] g_outs[i]) == R::V(kinds_of(vals.items())[i]) by { assert(g_outs[i] is Concrete); }
